@@ -132,6 +132,8 @@ TABLE = {
         ("take-instead-of-index-silent", DF, "            yield colname, column[keep].copy()", "            yield colname, np.take(column, keep)", S, None),
     ],
     "C07": [
+        ("nth-vector-form-bare-item", AG, "        return item(x[index])", "        return x[index].item()", V, "GRD-item"),
+        ("max-vector-form-bare-item", AG, "    return item(np.amax(x)) if len(x) >= 1 else x.na_value", "    return np.amax(x).item() if len(x) >= 1 else x.na_value", V, "GRD-item"),
         ("vector-std-drops-ddof", AG, "    return np.std(x, ddof=ddof).item() if len(x) >= 2 else np.nan", "    return np.std(x).item() if len(x) >= 2 else np.nan", V, "SIB-7"),
         ("numba-std-for-nonzero-ddof", AG, "            if ddof == 0:\n                # Numba doesn't support the ddof argument,\n                # so can only handle the default ddof=0.\n                f = (generic, generic_numba)\n                f = select(f, data, x)(np.std)", "            if ddof != 0:\n                # Numba doesn't support the ddof argument,\n                # so can only handle the default ddof=0.\n                f = (generic, generic_numba)\n                f = select(f, data, x)(np.std)", V, "SIB-7"),
         ("std-nrequired-1", AG, "                     default=np.nan,\n                     nrequired=2)\n\n        aggregate.group_aware = True\n        return aggregate\n    x = handle_na(x, drop_na)\n    return np.std(",
